@@ -121,62 +121,7 @@ func checkC05(c *an.Ctx) {
 		sort.Strings(names)
 		c.OK("C05.1", "config.(*Loader).Load:chain", load.Pos(), "cycle error chain: %v", names)
 	}
-	// recorder: caller of the detector that is not the detector
-	var rec *ssa.Function
-	var detCalls []ssa.CallInstruction
-	for _, site := range p.CallSitesOf(det) {
-		if site.Parent() != det {
-			rec = site.Parent()
-			detCalls = append(detCalls, site)
-		}
-	}
-	if rec == nil {
-		c.Bad("C05.1", an.Short(det)+":callers", det.Pos(), "the cycle detector is never started")
-		return
-	}
-	// every path of the recorder passes a detector call
-	first := rec.Blocks[0].Instrs[0]
-	isDet := func(in ssa.Instruction) bool {
-		for _, d := range detCalls {
-			if in == d.(ssa.Instruction) {
-				return true
-			}
-		}
-		return false
-	}
-	all, _ := an.OnAllPathsToExit(first, isDet, nil)
-	c.Check(all || isDet(first), "C05.1", an.Short(rec)+":detector-on-every-path", rec.Pos(), "every path through the edge recorder runs the cycle detector", "an edge can be recorded without running the cycle detector")
-	for _, d := range detCalls {
-		args := d.Common().Args
-		// start node is an endpoint of the new edge
-		startOK := false
-		for _, a := range args {
-			if bt, ok := a.Type().Underlying().(*types.Basic); ok && bt.Kind() == types.String {
-				for _, prm := range rec.Params {
-					if an.SameValue(a, prm) {
-						startOK = true
-					}
-				}
-			}
-		}
-		c.Check(startOK, "C05.1", an.Short(rec)+":detector-start", d.Pos(), "the detector starts from an endpoint of the inserted edge", "the detector is not started from an endpoint of the inserted edge")
-		// fresh mark set
-		for _, a := range args {
-			if _, isMap := a.Type().Underlying().(*types.Map); !isMap {
-				continue
-			}
-			fresh := false
-			for _, r := range an.ResolveAll(a) {
-				if mm, ok := r.(*ssa.MakeMap); ok && mm.Parent() == rec {
-					fresh = true
-				} else {
-					fresh = false
-					break
-				}
-			}
-			c.Check(fresh, "C05.1", an.Short(rec)+":fresh-marks", d.Pos(), "each insertion checks with a newly allocated mark set", "the mark set handed to the detector is not allocated for this insertion ("+an.Prov(a)+"): marks of an earlier check make later ones return early")
-		}
-	}
+	detectorStarted(c, "C05.1")
 	// buildPipeline adds every declared stage
 	bp := p.Func("internal/config", "", "buildPipeline")
 	add := p.Func("pkg/scheduler", "ExecutionGraph", "AddStage")
